@@ -288,7 +288,10 @@ def gen_base(prop, seed, tier):
     frame = r.choice([None, None, ['ellipsis'], ['slice', 1, None, None], ['slice', 0, m - 1, None], ['list', [0, m - 1]],
                       ['list', [m - 1, 0]], ['range', 0, m, 2], ['ndarray', [1, 0]], ['slice', 0, None, 2]])
     fr2 = rng.stream(seed, 'frame2')
-    if m >= 3 and fr2.random() < 0.2:
+    u = fr2.random()
+    if u > 0.92:
+        frame = fr2.choice([['list', [-1, 0]], ['slice', -2, None, None], ['list', [0, -1, 1]], ['slice', None, None, -1]])
+    if m >= 3 and u < 0.2:
         # unsorted index frames of >= 3 columns (3-cycles, repeats): code that sorts the indices for reading and restores the order afterwards
         # gets 2-element and monotone frames right whatever it does
         perm = list(range(m))
@@ -515,7 +518,7 @@ def _execute(scn, scared):
     with env.clock(clock), env.memory(env.SimMemory()):
         for j, (samples, pt) in enumerate(sets):
             ths = make_ths(storage, samples, {'plaintext': pt}, 'set%d' % j)
-            container = scared.Container(ths, frame=np_frame(scn['frame']), preprocesses=list(pps))
+            container = scared.Container(ths, frame=np_frame(scn['frame']), preprocesses=(pps[0] if (len(pps) == 1 and scn['seed'] % 3 == 0) else list(pps)))
             E = expected_matrix(scn, samples)
             D = expected_data(scn, model, pt)
             Hook.sf_calls = 0
